@@ -39,8 +39,8 @@ def shards(tier, seed):
             out.append({"id": "sched1-%d" % i, "kind": "sched1", "pairs": pairs[i::8], "maxpoints": 260})
         out.append({"id": "sched2", "kind": "sched2", "pairs": fixed[:4], "stride": 16})
         # two preemptions, both threads building from the *same* argument objects (a constant descriptor list of the application)
-        out.append({"id": "sched2-shared-4", "kind": "sched2", "pairs": [("ExtendedCopy4+id", "ExtendedCopy4+id")], "stride": 40})
-        out.append({"id": "sched2-shared-5", "kind": "sched2", "pairs": [("ExtendedCopy5+id", "ExtendedCopy5+id"), ("PersistentReserveOut+id", "PersistentReserveOut+id")], "stride": 40})
+        out.append({"id": "sched2-shared-4", "kind": "sched2", "pairs": [("ExtendedCopy4+id+shared", "ExtendedCopy4+id+shared")], "stride": 40})
+        out.append({"id": "sched2-shared-5", "kind": "sched2", "pairs": [("ExtendedCopy5+id+shared", "ExtendedCopy5+id+shared"), ("PersistentReserveOut+shared", "PersistentReserveOut+shared")], "stride": 40})
         for i in range(4):
             out.append({"id": "sched-data-%d" % i, "kind": "sched1", "pairs": DATA_PAIRS[i::4], "maxpoints": 200})
         cold = [("ExtendedCopy5", "ExtendedCopy5"), ("ExtendedCopy4", "ExtendedCopy4"), ("PersistentReserveOut", "PersistentReserveOut"),
@@ -126,12 +126,12 @@ def by_name(a, spc, DO):
             d["descriptor_type_code"] = DO.SEG_NAMES[d["descriptor_type_code"]][0]
 
 
-def observe(c, a):
+def observe(c, a, share=False):
     """the program each history step / thread runs: build, decode, encode"""
     from vmon import harness
     from vmon.spec import dataout as DO
 
-    cmd = harness.construct(c, c.sets[0], DO.fresh(a) if c.custom else a)
+    cmd = harness.construct(c, c.sets[0], DO.fresh(a) if c.custom and not share else a)
     cls = type(cmd)
     dec = cls.unmarshall_cdb(cmd.cdb)
     enc = bytes(cls.marshall_cdb(dec))
@@ -187,6 +187,9 @@ def program(S, name, args):
     if name.startswith("data:"):
         return data_program(name[5:])
     c = S.COMMANDS[name.split("+")[0]]
+    if name.endswith("+shared"):
+        # the threads build from the very same argument objects (a constant descriptor list of the application), not from copies
+        return lambda: observe(c, args[name], share=True)[1]
     return lambda: observe(c, args[name])[1]
 
 
